@@ -75,7 +75,7 @@ def candidates(toks, cls, exts):
     if cls == "junk":
         out = [(i, None) for i in range(n + 1)]
     elif cls == "unknown-command":
-        out = [(i, t) for i in cmdstart for t in (b"foo", b"Bar_1", b"keepx")]
+        out = [(i, t) for i in cmdstart for t in (b"foo", b"Bar_1", b"keepx", b"x", b"UNKNOWN_command_with_a_long_name")]
     elif cls == "ext-command":
         out = [(i, t) for i in cmdstart for e, t in EXT_CMDS.items() if e not in exts]
     elif cls == "ext-test":
@@ -86,11 +86,12 @@ def candidates(toks, cls, exts):
                 if e not in exts:
                     out.append((i, tag))
     elif cls == "bogus-tag":
-        out = [(i, t) for i in range(1, n + 1) if low[i - 1] in TABLE for t in (b":bogus", b":ISNT")]
+        out = [(i, t) for i in range(1, n + 1) if low[i - 1] in TABLE for t in (b":bogus", b":ISNT", b":x", b":Bogus_Tag_9")]
     elif cls == "surplus-string":
-        out = [(i, b'"surplus"') for i in range(1, n) if toks[i] in (b";", b"{")]
+        out = [(i, t) for i in range(1, n) if toks[i] in (b";", b"{")
+               for t in (b'"surplus"', "\"D\u00e9p\u00f4t l\u00e9gal \u20ac\"".encode("utf-8"), b'"a\\"b\\\\c"', "\"\u65e5\u672c\u8a9e\"".encode("utf-8"), b'""')]
     elif cls == "surplus-number":
-        out = [(i, b"42K") for i in range(1, n) if toks[i] in (b";", b"{")]
+        out = [(i, t) for i in range(1, n) if toks[i] in (b";", b"{") for t in (b"42K", b"0", b"7g", b"1234567890")]
     elif cls == "test-as-command":
         out = [(i, t) for i in cmdstart for t in (b"true", b"header", b"exists", b"NOT")]
     elif cls == "nontest-as-test":
